@@ -16,6 +16,7 @@ import ClarabelProofs.Lemmas.InfoConesAll
 import ClarabelProofs.Lemmas.InfoPresolveUser
 import ClarabelProofs.Lemmas.InfoRollback
 import ClarabelProofs.Props.C02Full
+import ClarabelProofs.Props.C02NS
 
 namespace Clarabel.C02
 open Clarabel.Dense Clarabel.Info Finset
